@@ -207,7 +207,7 @@ def check(run):
     shape = SHAPE["last"]
     if not err:
         if not shape or not shape.get("found"):
-            run.add_corr_break("G: the shape of SessionManager.background()/Close could not be read from the source: %s" % ((shape or {}).get("err"),))
+            run.add_corr_break("G: the shape of SessionManager.background()/Close could not be read from the source: %s" % ((shape or {}).get("err"),), shape=True)
         else:
             for k, what in SHAPE_EXPECTED.items():
                 if bool(shape.get(k)) != (k != "store_after_unlock"):
